@@ -341,7 +341,13 @@ def run_shard(seed, tier, shard, nshards):
         async_sinks = mode == 'async' and rng.random() < 0.5
         calls = enumerate_faults(prog, inputs, mode, async_sinks)
         if calls is None:
-            out['inconclusive'].append('program %d: fault-free run failed' % k)
+            # without any injected failure an emit raised (or did not return): the former is a verdict, not a reason to skip
+            case = {'prog': prog, 'inputs': inputs, 'mode': mode, 'faults': {}, 'async_sinks': async_sinks, 'exc': 'exception'}
+            res, viols, _ = check_case(case, C, out['sets'])
+            out['evaluations'] += 1
+            out['violations'].extend(viols)
+            if res is None or not viols:
+                out['inconclusive'].append('program %d: fault-free run failed' % k)
             continue
         C['programs'] = C.get('programs', 0) + 1
         C['single_fault_points_enumerated'] = C.get('single_fault_points_enumerated', 0) + len(calls)
